@@ -174,8 +174,9 @@ def run(chk, repo):
     sym3 = E + "EtherCat.process_packet"
     h = repo.func(sym3)
     chk.analysed(sym3)
-    mk = [c for c in ast.walk(h) if isinstance(c, ast.Call) and dotted(
-        c.func) == "EtherCatError"]
+    errs = {c.name for c in repo.subclasses(E + "EtherCatError")}
+    mk = [c for c in ast.walk(h) if isinstance(c, ast.Call) and (dotted(
+        c.func) or "").split(".")[-1] in errs]
     ok = len(mk) == 1 and any(t and match("wkc == 0", e) is not None
                               for e, t in path_facts(stmt_of(mk[0])))
     chk.ob("R25.5", sym3, "EtherCatError is created only for a datagram "
@@ -187,7 +188,7 @@ def run(chk, repo):
            for x in t.handlers if x.type is not None and unparse(x.type)
            == "Exception"]
     ok = len(gen) == 1 and gen[0].name is not None and bool(find(
-        f"future.set_exception({gen[0].name})", gen[0]))
+        f"future.set_exception(@{gen[0].name})", gen[0]))
     chk.ob("R25.5", sym3, "other failures reach the requesters as the "
            "exception that occurred", ok, gen[0] if gen else h,
            "future.set_exception(e) with the caught object")
